@@ -52,6 +52,8 @@ type FnGen struct {
 	cur      *State
 	curReach Term
 	curBlock *ssa.BasicBlock
+	deniedEvents map[string]bool // nocount(ev) entries of the contract under verification
+	curCC    *ssa.CallCommon // the call being translated (decides which stable components a havoc keeps)
 	nfresh   int
 	pass     int
 	written  map[int]map[string]bool
@@ -300,7 +302,11 @@ func (fg *FnGen) havocAll(why string) {
 			continue // lock ownership, ghost variables and event counters are not heap: handled explicitly
 		}
 		if fg.g.isStableComp(comp) {
-			continue // stored only by its declared writers (checked by the package-wide SSA scan)
+			// stored only by its declared writers (checked by the package-wide SSA scan): kept unless the
+			// call causing this havoc may (transitively) run one of them
+			if fg.curCC == nil || fg.g.stableKeptAcross(comp, fg.g.callTargets(fg.g.buildCallGraph(), fg.curCC)) {
+				continue
+			}
 		}
 		if strings.HasPrefix(comp, "H:local!") {
 			continue // private local: unreachable for callees (closures bound to it havoc it explicitly)
@@ -332,18 +338,26 @@ func (fg *FnGen) havocCounter(comp string, pos token.Pos) {
 }
 
 // havocAllCounters: a dynamic call without contract may perform any event.
-func (fg *FnGen) havocAllCounters(pos token.Pos) {
+func (fg *FnGen) havocAllCounters(pos token.Pos, except ...map[string]bool) {
 	for _, comp := range append([]string{}, fg.compOrder...) {
 		if strings.HasPrefix(comp, "cnt:") {
+			if len(except) > 0 && except[0][comp] {
+				continue
+			}
+			if fg.curCC != nil && !fg.g.callMayEmit(strings.TrimPrefix(comp, "cnt:"), fg.curCC) {
+				continue // no call that is this event is reachable from the callee (conservative call graph)
+			}
 			fg.havocCounter(comp, pos)
 		}
 	}
-	fg.markWritten("$allcnt")
+	if len(except) == 0 || len(except[0]) == 0 {
+		fg.markWritten("$allcnt")
+	}
 }
 
 // effectCheck: a verified function may only perform events it declares (modifies count(ev) / emits ev).
 func (fg *FnGen) effectCheck(comp string, pos token.Pos) {
-	if fg.c == nil || fg.declaredEvents[comp] || fg.declaredEvents["cnt:*"] {
+	if fg.c == nil || fg.declaredEvents[comp] || (fg.declaredEvents["cnt:*"] && !fg.deniedEvents[comp]) {
 		return
 	}
 	fg.oblige("effect", strings.TrimPrefix(comp, "cnt:"), TFalse, pos, "event "+strings.TrimPrefix(comp, "cnt:")+" may happen here but the contract does not declare it (modifies count(...))")
@@ -902,6 +916,8 @@ func (fg *FnGen) run() (err error) {
 				fg.ghostTypes[gv.Name] = ghostIntArray
 			} else if T := fg.g.resolveTypeString(gv.Type, fnPkgPath(fg.fn)); T != nil {
 				fg.ghostTypes[gv.Name] = T
+			} else if gv.Type != "int" && gv.Type != "bool" {
+				panic(unsupported("ghost variable " + gv.Name + ": cannot resolve type " + gv.Type))
 			}
 			env := fg.env(fg.cur, fg.entry, nil)
 			iv := fg.evalC(gv.Init, env)
@@ -925,10 +941,17 @@ func (fg *FnGen) run() (err error) {
 			fg.note("ASSUMED (environment invariant, not checked at call sites) in " + fg.key + ": " + r.Src)
 		}
 		fg.declaredEvents = map[string]bool{}
+		fg.deniedEvents = excludedEvents(c)
+		for ev := range fg.deniedEvents {
+			fg.compSort(ev, SInt)
+		}
 		for _, em := range c.Emits {
 			fg.declaredEvents["cnt:"+em.Event] = true
 		}
 		for _, m := range c.Modifies {
+			if _, ok := noCountEvent(m); ok {
+				continue
+			}
 			if ev, ok := countEvent(m); ok {
 				fg.declaredEvents["cnt:"+ev] = true
 				if ev != "*" {
@@ -1051,12 +1074,24 @@ func (fg *FnGen) loopHead(b *ssa.BasicBlock, li *loopInfo, fpreds []*ssa.BasicBl
 	if fg.pass == 1 {
 		cb := fg.curBlock
 		fg.curBlock = nil // the pass-1 havoc itself is not a write of the loop body
+		savedCC := fg.curCC
+		fg.curCC = nil
 		fg.havocAll("loop head (pass 1)")
+		fg.curCC = savedCC
 		fg.curBlock = cb
 	} else {
 		mods := fg.loopMods[b.Index]
 		if mods["$all"] {
+			savedCC := fg.curCC
+			fg.curCC = nil
 			fg.havocAll("loop body havocs everything")
+			fg.curCC = savedCC
+			// stable components are kept by havocAll; those the body (or a writer it calls) stores to are not
+			for _, comp := range sortedKeys(mods) {
+				if _, ok := fg.compSorts[comp]; ok && fg.g.isStableComp(comp) {
+					fg.havocComp(comp)
+				}
+			}
 			// ghost variables and lock ownership are not touched by havocAll (callees cannot see them),
 			// but the loop body itself may have changed them
 			for _, comp := range sortedKeys(mods) {
@@ -1219,6 +1254,30 @@ func (fg *FnGen) checkInvariant(li *loopInfo, st *State, from *ssa.BasicBlock, e
 		fg.obligeG("dec", fmt.Sprintf("loop%d", li.ordinal), edge, dec, li.header.Instrs[0].Pos(), "loop variant decreases and is bounded below")
 	}
 	fg.cur, fg.curReach = saveCur, saveReach
+}
+
+// noCountEvent recognises a `nocount(ev)` modifies entry: with count(*), every event except ev.
+func noCountEvent(e CExpr) (string, bool) {
+	if c, ok := e.(*CCall); ok {
+		if id, ok := c.Fn.(*CIdent); ok && id.Name == "nocount" && len(c.Args) == 1 {
+			return c.Args[0].cstr(), true
+		}
+	}
+	return "", false
+}
+
+// excludedEvents: the nocount(ev) entries of a contract.
+func excludedEvents(c *Contract) map[string]bool {
+	var m map[string]bool
+	for _, e := range c.Modifies {
+		if ev, ok := noCountEvent(e); ok {
+			if m == nil {
+				m = map[string]bool{}
+			}
+			m["cnt:"+ev] = true
+		}
+	}
+	return m
 }
 
 // countEvent recognises a `count(ev)` modifies entry.
